@@ -97,6 +97,20 @@ func sphereMesh(r float64) []*sdf.Triangle3 {
 	return render.ToTriangles(s, render.NewMarchingCubesOctree(6))
 }
 
+// boxMesh: the 12 triangles of an axis-aligned box, outward normals.
+func boxMesh(a, b, c float64) []*sdf.Triangle3 {
+	x, y, z := a/2, b/2, c/2
+	v := func(i int) v3.Vec {
+		return v3.Vec{X: []float64{-x, x}[i&1], Y: []float64{-y, y}[(i>>1)&1], Z: []float64{-z, z}[(i>>2)&1]}
+	}
+	quads := [][4]int{{0, 2, 3, 1}, {4, 5, 7, 6}, {0, 1, 5, 4}, {2, 6, 7, 3}, {0, 4, 6, 2}, {1, 3, 7, 5}}
+	var ts []*sdf.Triangle3
+	for _, q := range quads {
+		ts = append(ts, &sdf.Triangle3{v(q[0]), v(q[1]), v(q[2])}, &sdf.Triangle3{v(q[0]), v(q[2]), v(q[3])})
+	}
+	return ts
+}
+
 // drawShape draws a shape of one of the classes the property names and returns a constructor:
 // every call of mk builds a new, identical object (same drawn parameters).
 func drawShape(t *rapid.T) (mk func() sdf.SDF3, class, desc string, ok bool) {
@@ -113,10 +127,10 @@ func drawShape(t *rapid.T) (mk func() sdf.SDF3, class, desc string, ok bool) {
 	}
 	switch class {
 	case "program3":
-		n := shape.Gen3(t, shape.Opts{S: S, Depth: rapid.IntRange(0, 3).Draw(t, "depth"), Grammar: shape.Full, Special: true, NoText: true})
+		n := shape.Gen3(t, shape.Opts{S: S, Depth: rapid.IntRange(0, 3).Draw(t, "depth"), Grammar: shape.Full, Special: true, NoText: true, AllBlends: true})
 		mk, desc = fromNode(n, func(b *shape.Built) sdf.SDF3 { return b.SDF3() }), n.String()
 	case "program2":
-		n := shape.Gen2(t, shape.Opts{S: S, Depth: rapid.IntRange(0, 3).Draw(t, "depth"), Grammar: shape.Full, Special: true, NoText: true})
+		n := shape.Gen2(t, shape.Opts{S: S, Depth: rapid.IntRange(0, 3).Draw(t, "depth"), Grammar: shape.Full, Special: true, NoText: true, AllBlends: true})
 		mk, desc = fromNode(n, func(b *shape.Built) sdf.SDF3 { return eval2as3{b.SDF2()} }), n.String()
 	case "cache2-extrude":
 		n := shape.Gen2(t, shape.Opts{S: S, Depth: rapid.IntRange(0, 2).Draw(t, "depth"), Grammar: shape.Lipschitz})
@@ -173,6 +187,14 @@ func drawShape(t *rapid.T) (mk func() sdf.SDF3, class, desc string, ok bool) {
 	case "trimesh":
 		r := g.Length(t, "r", 0.5, 5)
 		nb := rapid.IntRange(3, 20).Draw(t, "neighbours")
+		// a coarse mesh with fewer triangles than neighbours asked for (a 12-triangle box with the examples'
+		// 20 neighbours), or a sphere of a few hundred triangles
+		if rapid.Bool().Draw(t, "few-triangles") {
+			a, bq, c := g.Length(t, "bx", 0.5, 5), g.Length(t, "by", 0.5, 5), g.Length(t, "bz", 0.5, 5)
+			nb = rapid.SampledFrom([]int{20, 13, 100, 12, 5}).Draw(t, "neighbours-box")
+			mk, desc = func() sdf.SDF3 { return obj.ImportTriMesh(boxMesh(a, bq, c), nb, 3, 5) }, fmt.Sprintf("ImportTriMesh(box %g x %g x %g of 12 triangles, %d neighbours)", a, bq, c, nb)
+			break
+		}
 		mk, desc = func() sdf.SDF3 { return obj.ImportTriMesh(sphereMesh(r), nb, 3, 5) }, fmt.Sprintf("ImportTriMesh(sphere %g, %d neighbours)", r, nb)
 	case "text":
 		txt := rapid.StringMatching("[A-Za-z0-9]{1,4}").Draw(t, "txt")
